@@ -4,12 +4,12 @@
 //! Commands (model-relevant arguments first, implementation-only arguments last):
 //!   xz_write  <check> <bs|-> <filters> <dict> <parts> <payloads> <lzma opts> <flush idx list>
 //!   xz_sizes  <bs|-> <dict> <part lengths> <lzma opts>
-//!   xz_read   <multi 0|1> <skip 0|1> <file> <sizes> <kind>
-//!   xz_spec   <lenient> <skip 0|1> <file>
+//!   xz_read   <multi 0|1> <skip 0|1> <file> <sizes> <cap> <kind>
+//!   xz_spec   <lenient> <skip 0|1> <file> <cap>
 //!   lzip_write <dict> <ms|-> <parts> <payloads> <lzma opts>
 //!   lzip_sizes <dict> <ms|-> <part lengths> <lzma opts>
-//!   lzip_read <file> <sizes> <kind>
-//!   lzip_spec <file>
+//!   lzip_read <file> <sizes> <cap> <kind>
+//!   lzip_spec <file> <cap>
 //! <filters> = "." or comma list id:property (file-format filter ids); <payloads> = the LZMA2/LZMA
 //! payload of each block/member, sliced from the implementation's own output at generation time
 //! (the encoder is C01's business; the container model must reproduce every other byte).
@@ -21,7 +21,10 @@
 //!   oneof:<hex>,<hex>..    an error, or one of these byte strings
 //!   reject                 must be an error
 //!   any                    no panic / hang; agreement with liblzma when liblzma accepts
-//! Reader observation: END <out> <unconsumed> | ERR<kind> <out of earlier calls> | PANIC | SKIP.
+//! <cap> = output budget of the run (damaged size fields can promise megabytes, which the extracted
+//! model cannot afford): no call asks for more than cap + 1 - (bytes so far) bytes and the run stops
+//! with CAP once more than <cap> bytes were returned; valid files never reach it.
+//! Reader observation: END <out> <unconsumed> | ERR<kind> <out of earlier calls> | CAP <out> | PANIC | SKIP.
 //! xz_spec / lzip_spec: the "implementation" observed is liblzma (the reference the format
 //! specification of XzSpec.v stands for): OK <content> | REJECT.
 use crate::encutil::*;
@@ -101,30 +104,39 @@ pub fn filter_name(id: u8) -> &'static str {
     }
 }
 
-/// Drives a reader with the size history; on error keeps the bytes of earlier calls.
-pub fn drive<R: Read>(r: &mut R, sizes: &[usize]) -> (Vec<u8>, Option<u32>) {
+/// Result of driving a reader: bytes returned, and how the run ended.
+pub enum DriveEnd {
+    End,
+    Err(u32),
+    Cap,
+}
+
+/// Drives a reader with the size history (cycled; a zero size never ends the loop) under the
+/// output budget `cap`; on error keeps the bytes of earlier calls.
+pub fn drive<R: Read>(r: &mut R, sizes: &[usize], cap: usize) -> (Vec<u8>, DriveEnd) {
     let mut out = Vec::new();
     let mut i = 0usize;
     let mut buf = vec![0u8; sizes.iter().copied().max().unwrap_or(4096).max(4096)];
     let mut calls = 0u64;
     loop {
         let sz = if sizes.is_empty() { 4096 } else { sizes[i % sizes.len()] };
+        let want = sz.min(cap + 1 - out.len());
         i += 1;
         calls += 1;
         if calls > 50_000_000 {
-            return (out, Some(99));
+            return (out, DriveEnd::Err(99));
         }
-        match r.read(&mut buf[..sz]) {
+        match r.read(&mut buf[..want]) {
             Ok(n) => {
-                if sz > 0 && n == 0 {
-                    return (out, None);
+                if want > 0 && n == 0 {
+                    return (out, DriveEnd::End);
                 }
                 out.extend_from_slice(&buf[..n]);
-                if out.len() > (1 << 26) {
-                    return (out, Some(98));
+                if out.len() > cap {
+                    return (out, DriveEnd::Cap);
                 }
             }
-            Err(e) => return (out, Some(err_code(&e))),
+            Err(e) => return (out, DriveEnd::Err(err_code(&e))),
         }
     }
 }
@@ -166,13 +178,16 @@ pub fn xz_impl_write(check: u8, bs: Option<u64>, filters: &[(u8, u32)], o: &Opts
     })
 }
 
-pub fn xz_impl_read(file: &[u8], multi: bool, sizes: &[usize]) -> String {
+pub const NO_CAP: usize = 1 << 26;
+
+pub fn xz_impl_read(file: &[u8], multi: bool, sizes: &[usize], cap: usize) -> String {
     catch(|| {
         let mut r = XZReader::new(Cursor::new(file.to_vec()), multi);
-        let (out, err) = drive(&mut r, sizes);
-        match err {
-            None => format!("END {} {}", hex(&out), cursor_left(&r.into_inner())),
-            Some(c) => format!("ERR{} {}", c, hex(&out)),
+        let (out, end) = drive(&mut r, sizes, cap);
+        match end {
+            DriveEnd::End => format!("END {} {}", hex(&out), cursor_left(&r.into_inner())),
+            DriveEnd::Err(c) => format!("ERR{} {}", c, hex(&out)),
+            DriveEnd::Cap => format!("CAP {}", hex(&out)),
         }
     })
 }
@@ -254,6 +269,10 @@ pub fn read_oracle(obs: &str, kind: &str, reference: Option<Result<Vec<u8>, Stri
     if obs.starts_with("ERR98") {
         return "FAIL endless output".into();
     }
+    if obs.starts_with("CAP") {
+        // the run was cut off by the output budget before the reader reported success or failure
+        return if kind.starts_with("valid") || kind.starts_with("first") || kind.starts_with("trailing") { "FAIL valid file produced more bytes than its content".into() } else { "ok".into() };
+    }
     let end: Option<(&str, &str)> = obs.strip_prefix("END ").map(|r| r.split_once(' ').unwrap_or((r, "")));
     let (k, arg) = kind.split_once(':').unwrap_or((kind, ""));
     match k {
@@ -334,14 +353,15 @@ pub fn lzip_impl_write(dict: u32, ms: Option<u64>, o: &Opts, parts: &[Vec<u8>]) 
     })
 }
 
-pub fn lzip_impl_read(file: &[u8], sizes: &[usize]) -> String {
+pub fn lzip_impl_read(file: &[u8], sizes: &[usize], cap: usize) -> String {
     catch(|| match LZIPReader::new(Cursor::new(file.to_vec())) {
         Err(e) => format!("CERR{}", err_code(&e)),
         Ok(mut r) => {
-            let (out, err) = drive(&mut r, sizes);
-            match err {
-                None => format!("END {} {}", hex(&out), cursor_left(&r.into_inner())),
-                Some(c) => format!("ERR{} {}", c, hex(&out)),
+            let (out, end) = drive(&mut r, sizes, cap);
+            match end {
+                DriveEnd::End => format!("END {} {}", hex(&out), cursor_left(&r.into_inner())),
+                DriveEnd::Err(c) => format!("ERR{} {}", c, hex(&out)),
+                DriveEnd::Cap => format!("CAP {}", hex(&out)),
             }
         }
     })
@@ -419,8 +439,9 @@ pub fn exec(a: &[&str]) -> (String, String) {
             let skip = a[2] == "1";
             let file = unhex(a[3]);
             let sizes = sizes_of(a[4]);
-            let kind = a.get(5).copied().unwrap_or("any");
-            let obs = xz_impl_read(&file, multi, &sizes);
+            let cap: usize = a[5].parse().unwrap();
+            let kind = a.get(6).copied().unwrap_or("any");
+            let obs = xz_impl_read(&file, multi, &sizes, cap);
             let reference = if multi { Some(reflib::xz_decode_concat(&file)) } else { None };
             let oracle = read_oracle(&obs, kind, reference);
             (if skip { "SKIP".into() } else { obs }, oracle)
@@ -430,7 +451,7 @@ pub fn exec(a: &[&str]) -> (String, String) {
             let file = unhex(a[3]);
             let r = reflib::xz_decode_concat(&file);
             // C03 (reference -> crate): whatever the reference accepts the crate decodes identically
-            let obs = xz_impl_read(&file, true, &[]);
+            let obs = xz_impl_read(&file, true, &[], NO_CAP);
             let oracle = read_oracle(&obs, "any", Some(r.clone()));
             (if skip { "SKIP".into() } else { ref_obs(&r) }, oracle)
         }
@@ -471,15 +492,16 @@ pub fn exec(a: &[&str]) -> (String, String) {
         "lzip_read" => {
             let file = unhex(a[1]);
             let sizes = sizes_of(a[2]);
-            let kind = a.get(3).copied().unwrap_or("any");
-            let obs = lzip_impl_read(&file, &sizes);
+            let cap: usize = a[3].parse().unwrap();
+            let kind = a.get(4).copied().unwrap_or("any");
+            let obs = lzip_impl_read(&file, &sizes, cap);
             let oracle = read_oracle(&obs, kind, Some(reflib::lzip_decode_concat(&file)));
             (obs, oracle)
         }
         "lzip_spec" => {
             let file = unhex(a[1]);
             let r = reflib::lzip_decode_concat(&file);
-            let obs = lzip_impl_read(&file, &[]);
+            let obs = lzip_impl_read(&file, &[], NO_CAP);
             let oracle = read_oracle(&obs, "any", Some(r.clone()));
             (ref_obs(&r), oracle)
         }
@@ -490,7 +512,7 @@ pub fn exec(a: &[&str]) -> (String, String) {
 /// C02 + C03 + C18 on the implementation: own reader round trip, liblzma accepts and agrees, every
 /// block holds at most max(block_size, dict) bytes (all but the last exactly that many).
 pub fn xz_write_oracle(f: &[u8], check: u8, bs: Option<u64>, dict: u32, data: &[u8]) -> String {
-    let obs = xz_impl_read(f, false, &[]);
+    let obs = xz_impl_read(f, false, &[], NO_CAP);
     if obs != format!("END {} 0", hex(data)) {
         return format!("FAIL own reader does not return the bytes written ({})", &obs[..obs.len().min(40)]);
     }
@@ -528,7 +550,7 @@ pub fn xz_write_oracle(f: &[u8], check: u8, bs: Option<u64>, dict: u32, data: &[
 }
 
 pub fn lzip_write_oracle(f: &[u8], dict: u32, ms: Option<u64>, data: &[u8]) -> String {
-    let obs = lzip_impl_read(f, &[]);
+    let obs = lzip_impl_read(f, &[], NO_CAP);
     if obs != format!("END {} 0", hex(data)) {
         return format!("FAIL own reader does not return the bytes written ({})", &obs[..obs.len().min(40)]);
     }
@@ -565,6 +587,11 @@ pub fn lzip_write_oracle(f: &[u8], dict: u32, ms: Option<u64>, data: &[u8]) -> S
 
 // ------------------------------------------------------------------------------------------------
 // generators shared by the container areas
+
+/// Output budget of a reader run for a file whose (original) content has `len` bytes.
+pub fn cap_for(len: usize) -> usize {
+    2 * len + 1024
+}
 
 pub fn gen_sizes(rng: &mut Rng) -> Vec<usize> {
     match rng.below(7) {
@@ -791,7 +818,7 @@ pub fn push_xz(cmds: &mut Vec<String>, g: &XzGen, rng: &mut Rng, dist: &mut Dist
         let sizes = gen_sizes(rng);
         dist.bump(&format!("readsizes.{}", sizes_class(&sizes)));
         let multi = rng.chance(1, 2);
-        cmds.push(format!("xz_read {} {} {} {} valid:{}", multi as u8, has_bcj(&g.filters) as u8, hex(&f), ints(&sizes), hex(&g.data())));
+        cmds.push(format!("xz_read {} {} {} {} {} valid:{}", multi as u8, has_bcj(&g.filters) as u8, hex(&f), ints(&sizes), cap_for(g.data().len()), hex(&g.data())));
     } else {
         dist.bump("xz.writer_failed");
     }
@@ -804,7 +831,7 @@ pub fn push_lzip(cmds: &mut Vec<String>, g: &LzGen, rng: &mut Rng, dist: &mut Di
     if let Some(f) = file {
         let sizes = gen_sizes(rng);
         dist.bump(&format!("readsizes.{}", sizes_class(&sizes)));
-        cmds.push(format!("lzip_read {} {} valid:{}", hex(&f), ints(&sizes), hex(&g.data())));
+        cmds.push(format!("lzip_read {} {} {} valid:{}", hex(&f), ints(&sizes), cap_for(g.data().len()), hex(&g.data())));
     } else {
         dist.bump("lzip.writer_failed");
     }
